@@ -46,12 +46,12 @@ VARIANTS = ["none", "none", "reorder-file", "key-replaced", "key-added", "key-re
             "root-not-self-signed", "hash-flipped", "foreign-platform-id", "bundled-root",
             "one-target-signature-broken", "target-without-app-hash",
             "attestation-message-reshaped", "unusable-input", "unusable-input", "unusable-input",
-            "ui-msg-extended"]
+            "ui-msg-extended", "ui-msg-truncated"]
 # one of the three inputs cannot be used at all: nothing can be vouched for
 UNUSABLE = ["pubkeys-not-object", "pubkeys-bad-key", "pubkeys-key-not-on-curve",
             "pubkeys-not-json", "pubkeys-empty", "pubkeys-missing", "cert-not-json",
             "cert-missing", "root-garbage", "root-missing-or-not-a-point"]
-REQUIRED_LABELS = {t: ["plat:ledger", "plat:sgx", "accepted", "refused", "legacy", "current", "via:program"] +
+REQUIRED_LABELS = {t: ["plat:ledger", "plat:sgx", "accepted", "refused", "legacy", "current", "via:program", "ui-msg-cut-before-the-end-of-the-key"] +
                    ["variant:" + v for v in sorted(set(VARIANTS))] +
                    ["unusable:" + k for k in UNUSABLE]
                    for t in ("quick", "thorough")}
@@ -202,6 +202,22 @@ def run_case(c):
             ui_msg += c["vbytes"]
             if genuine:
                 genuine = None
+        else:
+            labels[-1] += "-na"
+    if var == "ui-msg-truncated":
+        # the UI message cut short (validly signed as it is): without the whole of the key
+        # field there is no UI-attested key to equal the operator's; cut further on, the
+        # statement does not say
+        if plat == "ledger":
+            full = len(ui_msg)
+            hdr = full - (32 + 33 + 32 + 2)
+            # (cuts beyond the key leave shortened values at the documented offsets: what is
+            # to be printed then the statement does not say - not generated)
+            cut = [hdr, hdr + 32, hdr + 32 + 1 + vi % 32, hdr + 32 + 12][
+                (c["vhdr"] + 2 * c["vtarget"]) % 4]
+            ui_msg = ui_msg[:cut]
+            genuine = False
+            labels.append("ui-msg-cut-before-the-end-of-the-key")
         else:
             labels[-1] += "-na"
     if var == "foreign-header":
@@ -448,6 +464,14 @@ def unusable_cases(tier, seed):
                             "unusable-input", "vi": 1, "vkey": 99, "vbytes": b"x",
                             "vpath": "zzz", "vhdr": vhdr, "vtarget": 0, "program": program,
                             "ukind": kind})
+    # ... and every way of cutting the UI message short, on the same device
+    base = dict(out[0], plat="ledger", platform3=b"led", program=False, ukind=UNUSABLE[0])
+    for legacy in (False, True):
+        for vhdr in (0, 1):
+            for vtarget in (0, 1):
+                for vi in (0, 11, 31):
+                    out.append(dict(base, variant="ui-msg-truncated", legacy=legacy, vhdr=vhdr,
+                                    vtarget=vtarget, vi=vi))
     return out
 
 
